@@ -92,6 +92,13 @@ func main() {
 		}
 		checks = append(checks, c)
 	}
+	if d := os.Getenv("VERIF_DUMP"); d != "" {
+		for _, c := range checks {
+			if c.Name == d {
+				c.Fn.WriteTo(os.Stderr)
+			}
+		}
+	}
 	if len(checks) == 0 {
 		fmt.Fprintf(os.Stderr, "ERROR: no harness registered for %s\n", prop)
 		os.Exit(2)
